@@ -7,14 +7,26 @@
  *   C = cnt > 0 ? min(cnt, L - S) : (L - S) + cnt    (cnt <= 0: "all but the last -cnt characters")
  *   C < 0 (more characters dropped than there are): no such slice -> refuse (NULL) or the empty slice.
  * memcpy: env_strhelp.h's ghost-index over-approximation (cbmc's array model does not terminate).
- * Behaviours: substr (every pair with C >= 0 or S out of range) / substr_negcount (C < 0).
+ * Behaviours: substr (idx >= 0, cnt > 0) / substr_wrap (idx < 0 or cnt <= 0; C >= 0 or S out of range) /
+ * substr_negcount (C < 0).
  */
 /*@unit
 name: substr
-define: U_MAIN
+define: U_MAIN, U_POS
 src: strings.c
 enforce: spiftool_substr
 backend: sat
+*/
+/* idx < 0 or cnt <= 0: the code computes len + idx and len - start + cnt in spif_uint32_t on purpose
+ * (modular arithmetic, defined behaviour, the range test "start_pos < len" follows); cbmc's
+ * --conversion-check flags the implicit int -> unsigned conversions of idx / cnt, so it is off here. */
+/*@unit
+name: substr_wrap
+define: U_MAIN, U_WRAP
+src: strings.c
+enforce: spiftool_substr
+backend: sat
+checks_off: --conversion-check
 */
 /*@unit
 name: substr_negcount
@@ -22,6 +34,7 @@ define: U_NEG
 src: strings.c
 enforce: spiftool_substr
 backend: sat
+checks_off: --conversion-check
 */
 #define VERIF_OWN_STRLEN
 #define VERIF_STRHELP_MEMCPY_AT_K
@@ -41,6 +54,11 @@ spif_charptr_t spiftool_substr(spif_charptr_t str, spif_int32_t idx, spif_int32_
 __CPROVER_requires(VCSTR_EXACT_AT(str, vg_n1, vg_j2))
 #ifdef U_MAIN
 __CPROVER_requires(!SIN || SC >= 0)
+# ifdef U_POS
+__CPROVER_requires(idx >= 0 && cnt > 0)
+# else
+__CPROVER_requires(idx < 0 || cnt <= 0)
+# endif
 #else
 __CPROVER_requires(SIN && SC < 0)
 #endif
